@@ -139,7 +139,11 @@ func c10Jobs(thorough bool) []json.RawMessage {
 		add(c10.Job{Sc: sc, Plan: c10.Plan{Answers: ok}, Bound: bound})
 		// one fault anywhere
 		for i := 0; i < k; i++ {
-			for _, a := range []int{1, 2, 3, 4, 5, 6, c10.AOkCloseCap} {
+			kinds := []int{1, 2, 3, 4, 5, 6}
+			if thorough || sc.N*sc.M <= 2 {
+				kinds = append(kinds, c10.AOkCloseCap, c10.AChunkedCut) // spelling / framing variants: on the two-call scenarios in the quick tier
+			}
+			for _, a := range kinds {
 				p := append([]int{}, ok...)
 				p[i] = a
 				add(c10.Job{Sc: sc, Plan: c10.Plan{Answers: p}, Bound: bound})
